@@ -156,6 +156,9 @@ class ByteArray(SimpleModel):
 
     @classmethod
     def to_hex(cls, value):
+        if isinstance(value, (six.binary_type, memoryview, mmap)):
+            return hexlify(value)
+
         return hexlify(_bytes_join(value))
 
     @classmethod
